@@ -246,7 +246,10 @@ func (w *World) CContent(t string, l *Ledger) ([]*wire.MsgTx, bool) {
 		fmt.Sscan(t[2:], &i)
 		return w.payCContent(uint32(i), l)
 	}
-	if t == "sc" {
+	if t == "sc" || t == "c2a" {
+		// sc: C's oldest coin goes to the stranger; c2a: C pays wallet A (with change back to C's
+		// address 0) - a transaction the node's ready wallet A records on its own, long before C
+		// is restored here, and in which the restored wallet SPENDS
 		for k := uint32(0); k < 6; k++ {
 			a, err := w.CAddr(k)
 			if err != nil {
@@ -255,6 +258,13 @@ func (w *World) CContent(t string, l *Ledger) ([]*wire.MsgTx, bool) {
 			for _, c := range l.ByOrder {
 				if c.SpentAt == 0 && string(c.Hash) == string(a.Hash) && c.Class == ClassStd && !w.relayedSpends(c.OP) {
 					cb := w.strangerCoinbase(l.Height + 1)
+					if t == "c2a" {
+						A, a0 := w.Wallets["A"], (*enum.RefAddr)(nil)
+						if a0, err = w.CAddr(0); err != nil || A == nil || len(A.Addrs) < 2 || c.Value < Mass {
+							return nil, false
+						}
+						return []*wire.MsgTx{cb, spend([]*Coin{c}, out(c.Value/2, A.Addrs[1].Pk), out(c.Value-c.Value/2-fee, stdPk(a0.Hash)))}, true
+					}
 					return []*wire.MsgTx{cb, spend([]*Coin{c}, out(c.Value-fee, w.SPk))}, true
 				}
 			}
